@@ -219,7 +219,7 @@ def run(check: Check, with_flags: bool = True):
   pa = PurityAnalysis(repo)
   bad = [mu for mu in pa.mutations(fi) if mu.root in fi.params or mu.root.startswith('<global')]
   for mu in bad:
-    check.ob('R-PURE', fi, mu.construct, False, f'{mu.how} ({mu.root})', node=mu.node)
+    check.ob('R-PURE', fi, mu.construct, False, f'{mu.how} ({mu.root})', node=mu.node, exact=True)
   if not bad:
     check.ob('R-PURE', fi, '__iter__', True, 'no write through self: repeated iteration with a fixed seed is identical')
 
@@ -316,6 +316,7 @@ def _num_steps(check: Check):
   verdicts = {'bound': True, 'cap': True}
   detail = []
   truthy = set()
+  floaty = set()
   for has_e in (True, False):
     for drop in (True, False):
       for has_s in (True, False):
@@ -363,6 +364,9 @@ def _num_steps(check: Check):
           key = 'bound'
           bad = wrong_bound | capped(bound | wrong_bound) | {'S', 'None'}
         v = True if g in want else (False if g in bad else None)
+        if v is None and isinstance(got, ast.AST) and any((isinstance(y, ast.BinOp) and isinstance(y.op, ast.Div)) or (
+            isinstance(y, ast.Call) and txt(y.func).split('.')[-1] in ('floor', 'ceil', 'round', 'float', 'log2', 'trunc', 'rint')) for y in ast.walk(got)):
+          floaty.add(txt(got)[:70])
         if v is None and isinstance(got, ast.AST):
           # neither a listed form: compare with the definition on a grid of small integers (constant folding of the expression)
           import itertools
@@ -386,6 +390,10 @@ def _num_steps(check: Check):
   shown = '; '.join(d for d in detail if 'epochs=set' in d and 'steps=None' in d)
   check.ob('R-SIZE.steps', fi, 'drop_remainder: N*epochs // b; else (N*epochs + b - 1) // b', verdicts['bound'],
            f'with num_epochs set: floor division when the remainder is dropped, ceiling division otherwise ({shown})')
+  for ftxt in sorted(floaty):
+    check.ob('R-SIZE.steps', fi, ftxt, False,
+             'the number of batches is computed in floating point (true division, floor / ceil): for some (size, batch_size, epochs) the '
+             'rounded result is one batch off the exact integer count', exact=True)
   for tname in sorted(truthy):
     check.ob('R-SIZE.steps', fi, f'if {tname}:', False,
              f'`{tname}` is an optional count tested by truthiness: 0 (train for no steps / no epochs) is taken for "not set"', exact=True)
